@@ -278,7 +278,7 @@ func runC06(c *mon.Ctx) {
 		for j, p := range parts {
 			chunks[j] = s[off : off+p]
 			off += p
-			deltas[j] = int32(r.Intn(50))
+			deltas[j] = liveDelta(r, 50)
 		}
 		if i%10 == 3 && len(deltas) > 2 {
 			// one very long pause in the middle of the stream: the 32-bit millisecond clock passes 2^31
